@@ -13,25 +13,32 @@ def run(ctx):
     ctx.assumptions = ["PSMachine counts operations exactly as the library does (one per dispatched object; a name and "
                        "its value are two); an error within a few operations of the budget may surface as either",
                        "state after a non-budget error is not compared"]
+    # limits must exist; their values are measured and passed to the specification as constants
+    for name in pscommon.missing_limits(ctx):
+        ctx.violation("no limit: " + name, "runaway growth is not cut off: no %s limit found below the search bound" % name,
+                      stimulus={"opstack": "{1} loop", "dictstack": "{currentdict begin} loop", "execdepth": "/f {f 1} def f",
+                                "maxarray": "268435456 array", "maxstring": "268435456 string", "maxdict": "268435456 dict"}.get(name),
+                      expected="stackoverflow / dictstackoverflow / execstackoverflow / limitcheck", how="vh probe-limits",
+                      spec="PSMachine CONSTANTS")
     mb = 24 if ctx.tier == "quick" else 48
     consts = {"Tier": '"%s"' % ("quick" if ctx.tier == "quick" else "quick"), "StepBound": "400",
               "MaxBudget": str(mb), "FeedLen": "1", "Family": '"budget"'}
     summ, vec, base = pscommon.run_mbt(ctx, "MC_PSProg", consts, "psbudget", base_heap="FreshHeap",
-                                       invariants=("Emit", "Inv", "BudgetTransparent"))
+                                       invariants=("Emit", "Inv", "BudgetTransparent"), replay_args=("-count",))
     pscommon.absorb(ctx, summ, "vh replay-ps (MC_PSProg budget)", "PSMachine!Count / BudgetTransparent")
     pscommon.negative_control(ctx, vec, base)
     ctx.extra["budget_runs"] = summ["vectors"]
     # (a') the budget spans consecutive Execute calls on one interpreter
     cb = dict(consts, Family='"budgetcalls"', MaxBudget=str(12 if ctx.tier == "quick" else 24))
     summ1, _, _ = pscommon.run_mbt(ctx, "MC_PSProg", cb, "psbudgetcalls", base_heap="FreshHeap",
-                                   invariants=("Emit", "Inv", "BudgetSpansCalls"))
+                                   invariants=("Emit", "Inv", "BudgetSpansCalls"), replay_args=("-count",))
     pscommon.absorb(ctx, summ1, "vh replay-ps (MC_PSProg budgetcalls)", "PSMachine!Count across EndCall / BudgetSpansCalls")
     ctx.extra["budget_runs_split_in_two_calls"] = summ1["vectors"]
     # (b) recursion and growth shapes against the real limits
     cl = {"Tier": '"quick"', "StepBound": "9000", "MaxBudget": "1", "FeedLen": "1", "Family": '"limits"'}
     # one worker: the records of this family are long (operand stacks of 500 values), and concurrent
     # appends of several workers to the vector file interleave beyond one write chunk
-    summ2, _, _ = pscommon.run_mbt(ctx, "MC_PSProg", cl, "pslimits", base_heap="FreshHeap", workers=1)
+    summ2, _, _ = pscommon.run_mbt(ctx, "MC_PSProg", cl, "pslimits", base_heap="FreshHeap", workers=1, replay_args=("-count",))
     pscommon.absorb(ctx, summ2, "vh replay-ps (MC_PSProg limits)", "PSMachine!EnterProc/CallProc/Guarded, PSOps!NewContainer")
     ctx.extra["limit_shapes"] = summ2["vectors"]
     # (c) the %! start check
